@@ -49,6 +49,9 @@ pub enum Op {
     /// the multiplexer stays open) or all but the last (false: the flow lives on)
     #[serde(alias = "UdpDns")]
     UdpDnsExchange(u16, u8, bool),
+    /// the destination of an HTTP/2 tunnel (index) ends its sending direction and keeps reading:
+    /// the tunnel and its outbound connection live on
+    DestHalfClose(u16),
 }
 
 #[derive(Serialize, Deserialize, Debug, Clone)]
@@ -106,6 +109,8 @@ struct Model {
 
 struct Dest {
     conn: TcpStream,
+    /// the destination has ended its sending direction (FIN) and keeps reading
+    half_closed: bool,
 }
 
 enum ClientSide {
@@ -350,7 +355,7 @@ async fn run_history(c: &Case) -> Verdict {
                         if ok {
                             ensure!(status == Some(200), "harness:connect", "step {}: CONNECT to the canary answered {:?}", step, status);
                             let d = tokio::time::timeout(Duration::from_secs(5), acc_rx.recv()).await.ok().flatten().ok_or_else(|| herr("accept", "no accept".into()))?;
-                            tunnels.push(Tunnel { session: k, proto: "http1", client: Some(ClientSide::H1(io)), dest: Some(Dest { conn: d }) });
+                            tunnels.push(Tunnel { session: k, proto: "http1", client: Some(ClientSide::H1(io)), dest: Some(Dest { conn: d, half_closed: false }) });
                             model.tcp += 1;
                             sessions[k] = Session::H1Used;
                         } else {
@@ -374,7 +379,7 @@ async fn run_history(c: &Case) -> Verdict {
                         if ok {
                             ensure!(resp.status() == 200, "harness:connect", "step {}: h2 CONNECT answered {}", step, resp.status());
                             let d = tokio::time::timeout(Duration::from_secs(5), acc_rx.recv()).await.ok().flatten().ok_or_else(|| herr("accept", "no accept".into()))?;
-                            tunnels.push(Tunnel { session: k, proto: "http2", client: Some(ClientSide::H2 { send: stream, recv: resp.into_body() }), dest: Some(Dest { conn: d }) });
+                            tunnels.push(Tunnel { session: k, proto: "http2", client: Some(ClientSide::H2 { send: stream, recv: resp.into_body() }), dest: Some(Dest { conn: d, half_closed: false }) });
                             model.tcp += 1;
                         } else {
                             ensure!(resp.status() == 502, "harness:connect", "step {}: h2 CONNECT to a closed port answered {}", step, resp.status());
@@ -390,7 +395,7 @@ async fn run_history(c: &Case) -> Verdict {
                 }
                 let t = &mut tunnels[live[idx(*i, live.len())]];
                 let up_n = *up as usize % 20_000;
-                let down_n = *down as usize % 20_000;
+                let down_n = if t.dest.as_ref().unwrap().half_closed { 0 } else { *down as usize % 20_000 };
                 let up_data = vec![0x75u8; up_n];
                 let down_data = vec![0x64u8; down_n];
                 let dest = t.dest.as_mut().unwrap();
@@ -440,8 +445,32 @@ async fn run_history(c: &Case) -> Verdict {
                 *model.up.entry(t.proto).or_default() += up_n as u64;
                 *model.down.entry(t.proto).or_default() += down_n as u64;
             }
+            Op::DestHalfClose(i) => {
+                let live: Vec<usize> = tunnels.iter().enumerate().filter(|(_, t)| matches!(t.client, Some(ClientSide::H2 { .. })) && t.dest.as_ref().is_some_and(|d| !d.half_closed)).map(|(k, _)| k).collect();
+                if live.is_empty() {
+                    continue;
+                }
+                let t = &mut tunnels[live[idx(*i, live.len())]];
+                let d = t.dest.as_mut().unwrap();
+                d.conn.shutdown().await.map_err(|e| herr("io", e.to_string()))?;
+                d.half_closed = true;
+                // the client sees the end of the download direction; its own direction stays open
+                if let Some(ClientSide::H2 { recv, .. }) = t.client.as_mut() {
+                    loop {
+                        match tokio::time::timeout(Duration::from_secs(3), recv.data()).await {
+                            Ok(None) => break,
+                            // the END_STREAM flag may travel on an empty DATA frame
+                            Ok(Some(Ok(b))) if b.is_empty() => continue,
+                            other => {
+                                return viol("relay:half-close-not-passed-on", format!("step {}: the destination ended its sending direction, the HTTP/2 client saw {:?} instead of the end of the stream", step, other.map(|x| x.map(|y| y.map(|b| b.len()).map_err(|e| e.to_string())))));
+                            }
+                        }
+                    }
+                }
+                // nothing changes for the gauges: the connection is alive until the client ends too
+            }
             Op::BigDownload(i, kb) => {
-                let live: Vec<usize> = tunnels.iter().enumerate().filter(|(_, t)| t.client.is_some() && t.dest.is_some()).map(|(k, _)| k).collect();
+                let live: Vec<usize> = tunnels.iter().enumerate().filter(|(_, t)| t.client.is_some() && t.dest.as_ref().is_some_and(|d| !d.half_closed)).map(|(k, _)| k).collect();
                 if live.is_empty() {
                     continue;
                 }
@@ -938,6 +967,7 @@ impl Suite for HistorySuite {
             1 => any::<u16>().prop_map(Op::CloseUdpMux),
             1 => (any::<u16>(), any::<u8>(), any::<u16>()).prop_map(|(a, b, c)| Op::UdpBurstToClosedPort(a, b, c)),
             2 => (any::<u16>(), any::<u8>(), prop_oneof![3 => Just(true), 1 => Just(false)]).prop_map(|(a, b, c)| Op::UdpDnsExchange(a, b, c)),
+            2 => any::<u16>().prop_map(Op::DestHalfClose),
         ];
         prop::collection::vec(op, 5..=30).prop_map(|ops| Case { ops }).boxed()
     }
@@ -971,6 +1001,7 @@ impl Suite for HistorySuite {
                 Op::UdpReplies(..) if have_flow => v.push("udp-replies"),
                 Op::UdpBurstToClosedPort(..) if have_mux => v.push("udp-burst-to-closed-port"),
                 Op::UdpDnsExchange(_, _, true) if have_mux => v.push("port-53-flow-completed"),
+                Op::DestHalfClose(_) => v.push("destination-half-close"),
                 _ => {}
             }
         }
